@@ -7,7 +7,8 @@ from . import ops
 
 
 class LoopSpec:
-    def __init__(self, invariant=(), decreases=None, modifies=(), types=None, index='_k', ghost=(), use=(), use_exit=(), use_head=()):
+    def __init__(self, invariant=(), decreases=None, modifies=(), types=None, index='_k', ghost=(), use=(), use_exit=(), use_head=(), header=None):
+        self.header = header                # expected text of the loop header (for/while line without the colon): guards against ordinal drift
         self.invariant = [invariant] if isinstance(invariant, str) else list(invariant)
         self.decreases = decreases
         self.modifies = list(modifies)      # expressions naming heap objects the body mutates (beyond the syntactic ones)
